@@ -36,7 +36,8 @@ def run(tier, seed, only=None):
         "block and the invariant used extent <= memory_consumption().  P1e-fit: the element stride of all-fixed vectors is at "
         "least the extent of one element for all fixed sizes; INV-S: that stride is the one of *every* state - each constructor "
         "(default construction included) and each mutator leaves stride == the constructor's stride formula of the state's "
-        "fixed sizes.  No bulk write through a null block.  The global statement "
-        "'N elements with payload <= B always fit' for varying-size lists is a summation over elements and is argued in "
-        "DESIGN, not mechanised.",
+        "fixed sizes.  No bulk write through a null block.  FIT: 'N elements whose payloads "
+        "total at most B bytes fit' for varying-size lists as an induction: a verified linear lower bound T1+(n-1)*S+b of the "
+        "constructor's request, and per appended element (symbolic span lengths, storage-aligned start) "
+        "AlignUp(extent, storage alignment) <= S + payload and extent <= T1 + payload.",
         cfgs=cfgs, min_cfg=38, min_ob=1200)
